@@ -70,7 +70,7 @@ func (r *Reflog) load(rootGoitPath string, head *Head, refs *Refs) error {
 			record.Hash = hash
 
 			// references
-			if head.Commit.Hash.Compare(hash) {
+			if head.Commit != nil && head.Commit.Hash.Compare(hash) {
 				record.Head = color.GreenString(head.Reference)
 			}
 			branches := refs.getBranchesByHash(hash)
@@ -127,10 +127,15 @@ func (r *Reflog) Show() {
 			referenceString = color.BlueString("HEAD -> ") + fmt.Sprintf("%s, ", record.Head) + referenceString
 		}
 
+		shortHash := strings.Repeat("0", 7)
+		if record.Hash != nil {
+			shortHash = record.Hash.String()[:7]
+		}
+
 		if referenceString == "" {
-			fmt.Printf("%s HEAD@{%d}: %s: %s\n", color.YellowString(record.Hash.String()[:7]), i, record.recType, record.message)
+			fmt.Printf("%s HEAD@{%d}: %s: %s\n", color.YellowString(shortHash), i, record.recType, record.message)
 		} else {
-			fmt.Printf("%s (%s) HEAD@{%d}: %s: %s\n", color.YellowString(record.Hash.String()[:7]), referenceString, i, record.recType, record.message)
+			fmt.Printf("%s (%s) HEAD@{%d}: %s: %s\n", color.YellowString(shortHash), referenceString, i, record.recType, record.message)
 		}
 	}
 }
